@@ -5,4 +5,4 @@ From PS.model Require Import Smt Enc Ind Prog Solution Driver SolverSM SolverIns
 From PS.spec Require Import Spec.
 Definition report (ops : list op) := report_run spec_all ops.
 
-Extraction "extract/gen/model.ml" report solver_report solution_of default_cfg.
+Extraction "extract/gen/model.ml" report solver_report solution_of default_cfg setup_report.
